@@ -127,6 +127,16 @@ def df_case(rec, seedt):
     inplace = bool(rng.random() < 0.5)
     desc = {"kind": "df", "seed": list(seedt), "N": N, "p": p, "columns": cols, "inplace": inplace}
     rec.case(desc, nontrivial=True)
+    # index flavours a caller's frame realistically has (slice that keeps its labels, float time
+    # index, rows re-ordered without reset_index): the wrapper works on row POSITION
+    ikind = str(rng.choice(["default", "default", "offset-labels", "float-time", "shuffled-labels"]))
+    if ikind == "offset-labels":
+        df.index = np.arange(1000, 1000 + N)
+    elif ikind == "float-time":
+        df.index = np.arange(N) / 7.0 + 3.5
+    elif ikind == "shuffled-labels":
+        df.index = rng.permutation(N)
+    desc["index"] = ikind
     df0 = df.copy(deep=True)
     try:
         out = dsp.df_detrend(df, columns=cols, order=p, inplace=inplace)
@@ -136,6 +146,10 @@ def df_case(rec, seedt):
     rec.count("df_detrend_cases")
     if not df.equals(df0):
         rec.violation("df_detrend-modifies-input", "the caller's DataFrame was modified")
+    if len(out) != N or not np.array_equal(np.asarray(out.index), np.asarray(df0.index)):
+        rec.violation("df-detrend-rows", f"result has {len(out)} rows / a different index than the "
+                                         f"input ({N} rows, index kind {ikind})")
+        return
     sel = list(df.columns) if cols is None else cols
     for c in df.columns:
         numeric = df[c].dtype.kind in "biufc"
